@@ -63,6 +63,7 @@ type Machine struct {
 	preemptAt   int             // -1: off; k: preempt before the k-th call instruction of spawned goroutines
 	preemptSeen int
 	preemptHit  bool
+	stepBound   int64                  // absolute step count at which the armed step bound is exceeded (0: not armed)
 	preemptEver bool                   // a preemption was armed at some point of this path (its outcome depends on a schedule)
 	fnSeen      map[*ssa.Function]bool // functions whose SSA body was executed on this path (evidence)
 	fmtOpaque   bool                   // fmt verbs render symbolic scalar/string operands as "?" (vsymFmtOpaque)
@@ -248,6 +249,13 @@ func (m *Machine) lookupMethod(typ types.Type, meth *types.Func) *ssa.Function {
 
 func (m *Machine) visitInstr(fr *frame, instr ssa.Instruction) continuation {
 	m.steps++
+	if m.stepBound > 0 && m.steps > m.stepBound {
+		// the harness bounded the work of the code under test (vsymStepBound): running past it is a
+		// termination / complexity obligation, reported like a panic
+		m.stepBound = 0
+		m.path.violation("steps", "terminates-within-the-step-bound", fmt.Sprintf("more than the allowed SSA instructions executed @ %s", m.stackString()), m)
+		m.path.end("violation")
+	}
 	if m.steps > m.path.limits.MaxSteps {
 		m.path.end("bound: step limit")
 	}
